@@ -1178,7 +1178,7 @@ impl Player {
         let mut probe = Vec::new();
         for a in self.u_probe_addr.clone() {
             let hx = self.addr_hex(&a);
-            for slot in 1..=17u64 {
+            for slot in 1..=18u64 {
                 let v = self.get("eth_getStorageAt", json!([hx, format!("{:#x}", slot)])).ok().cloned().unwrap_or(Value::Null);
                 let w = v.as_str().and_then(|s| U256::from_str_radix(s.trim_start_matches("0x"), 16).ok()).unwrap_or(U256::MAX);
                 let b = B256::from(w.to_be_bytes::<32>());
